@@ -74,6 +74,8 @@ type PathResult struct {
 	Externals  []string    `json:"externals,omitempty"`
 	FrozenHits []string    `json:"frozen_hits,omitempty"`
 	Logs       []string    `json:"logs,omitempty"`
+	CrossChecked int       `json:"cross_checked,omitempty"` // cumulative per worker
+	CrossAgreed  int       `json:"cross_agreed,omitempty"`
 }
 
 type event struct {
@@ -462,6 +464,7 @@ func (e *Engine) assert(c *Term, msg string) {
 				e.addViolation("assert", msg, "", e.mdl, "model")
 			} else {
 				r, m := e.query(outside)
+				e.crossCheck([]*Term{outside}, r)
 				switch r {
 				case "sat":
 					e.addViolation("assert", msg, "", m, "sat")
@@ -676,6 +679,7 @@ func (e *Engine) RunPath(fn *ssa.Function, prefix []Dec) (res PathResult) {
 	e.newFuncs, e.newExt = nil, nil
 	res.FrozenHits = e.frozenHits
 	res.Logs = e.logs
+	res.CrossChecked, res.CrossAgreed = CrossStats.Checked, CrossStats.Agreed
 	if status != "done" && status != "abort" {
 		// alternatives discovered before a truncation are still valid work
 	}
